@@ -31,6 +31,7 @@ type Frame struct {
 	Visits    map[int]int // block index -> visits (for unwinding bound)
 	// Kind of frame: normal call, deferred call (result discarded), thread root...
 	IsDeferCall bool
+	IsGoRoot    bool // root frame of a goroutine run inline
 	// merge frame marker (pure callee merging)
 	Result Value // set on return when RetTo==nil and frame is a root
 }
